@@ -9,6 +9,7 @@ package hsim
 // with what the same call produces alone (computed afterwards, sequentially).
 
 import (
+	"sort"
 	"bytes"
 	"context"
 	"fmt"
@@ -160,6 +161,20 @@ func c14run(o *c14op) {
 			}
 			o.decoded = reflect.ValueOf(d).Elem().Interface()
 		}
+	case "list-into-map":
+		// a list on the wire decoded into a map keyed by position: every call has its own key slot
+		elems := []interface{}{v, v, v}
+		o.out, o.err = hio.Formatter{Simple: false}.Marshal(elems)
+		if o.err == nil {
+			m := map[int]interface{}{}
+			o.decErr = hio.Formatter{Simple: false}.Unmarshal(append([]byte(nil), o.out...), &m)
+			var keys []int
+			for k := range m {
+				keys = append(keys, k)
+			}
+			sort.Ints(keys)
+			o.decoded = fmt.Sprint(keys)
+		}
 	case "codec":
 		client := core.NewClient("mock://c14")
 		cc := core.NewClientContext()
@@ -197,7 +212,7 @@ func scenC14(r *Run) {
 			if r.PlanBool(3) {
 				fam = r.Plan(len(c14Families))
 			}
-			kind := r.PlanOf("marshal", "marshal-ref", "roundtrip", "roundtrip", "codec")
+			kind := r.PlanOf("marshal", "marshal-ref", "roundtrip", "roundtrip", "codec", "list-into-map")
 			if c14Families[fam].name == "recursive" && (kind == "marshal" || kind == "codec") {
 				kind = "marshal-ref" // a cyclic graph can only be written in reference mode
 			}
@@ -240,6 +255,10 @@ func scenC14(r *Run) {
 		}
 		if !bytes.Equal(o.out, ref.out) {
 			r.Fail("C14:output-differs:"+fam+":"+o.kind, "task %d op %d (%s of family %s, concurrently with %d other tasks, types never used before in this process):\n concurrent: %q\n alone:      %q", o.task, o.seq, o.kind, fam, ntasks-1, o.out, ref.out)
+			return
+		}
+		if o.kind == "list-into-map" && (fmt.Sprint(o.decoded) != "[0 1 2]" || o.decErr != nil) && o.err == nil {
+			r.Fail("C14:decoded-value-differs:"+fam+":list-into-map", "task %d op %d: a list of three %s values decoded into map[int]interface{} has the keys %v (error %v), expected [0 1 2]", o.task, o.seq, fam, o.decoded, o.decErr)
 			return
 		}
 		if o.kind == "roundtrip" {
@@ -370,6 +389,11 @@ func c14Pool(r *Run) {
 			cc.Init(ccl)
 			res, err := ccl.Codec.Decode(bad, cc)
 			p.out = fmt.Sprintf("%#v %v", res, err != nil)
+		case "marshal-bad-big":
+			// an encode that fails after it has produced a lot: the pooled encoder goes back with nothing of it
+			// (struct fields of unsupported types are skipped silently; a list element of such a type is an error)
+			_, err := hio.Marshal([]interface{}{strings.Repeat("x", 70000+p.arg), make(chan int)})
+			p.out = fmt.Sprint(err != nil)
 		case "number-as-string":
 			// a number on the wire decoded where a string is expected: the string must own its bytes
 			in := []byte(fmt.Sprintf(`a4{i%d;l%d;d%d.25;s3"abc"}`, 1000+p.arg, 99999999000+int64(p.arg), p.arg))
@@ -528,7 +552,7 @@ func c14Pool(r *Run) {
 		"codec-with-all-options", "probe-defaults", "probe-defaults",
 		"service-bad-request", "service-good-request", "service-good-request", "client-bad-response", "client-good-response",
 		"service-request-with-references", "client-response-with-references", "service-simple-request", "client-simple-response",
-		"number-as-string", "client-response-with-headers-and-references"}
+		"number-as-string", "client-response-with-headers-and-references", "marshal-bad-big"}
 	var all []*pop
 	fin := 0
 	for t := 0; t < ntasks; t++ {
@@ -574,6 +598,11 @@ func c14Pool(r *Run) {
 		case "client-response-with-headers-and-references":
 			d := fmt.Sprintf("hdr%03d", p.arg)
 			want = fmt.Sprintf("%#v %v", []interface{}{[]string{d, d, "x", d}}, nil)
+		case "marshal-simple", "marshal-ref":
+			// an encoder that never saw the pool
+			e := hio.NewEncoder(nil).Simple(p.kind == "marshal-simple")
+			err := e.Encode([]string{"dup", "dup", fmt.Sprint(p.arg)})
+			want = fmt.Sprintf("%q %v", e.Bytes(), err)
 		case "number-as-string":
 			want = fmt.Sprintf("%q %v %q %v %q %v", []string{fmt.Sprint(1000 + p.arg), fmt.Sprint(99999999000 + int64(p.arg)), fmt.Sprintf("%d.25", p.arg), "abc"}, nil, fmt.Sprint(7000+p.arg), nil, "11111111", nil)
 		}
